@@ -61,6 +61,7 @@ type Run struct {
 	evals       int64
 	distinct    map[[16]byte]struct{}
 	samples     []any
+	autoSamples []any
 	maxSamples  int
 	counters    map[string]int64
 	rule        string
@@ -177,10 +178,18 @@ func (r *Run) EvalN(n int) {
 // Distinct records one non-trivial case under its distinctness key
 // (the caller decides what makes a case non-trivial and calls this only then).
 func (r *Run) Distinct(parts ...any) {
-	h := sha256.Sum256([]byte(fmt.Sprint(parts...)))
+	str := fmt.Sprint(parts...)
+	h := sha256.Sum256([]byte(str))
 	var k [16]byte
 	copy(k[:], h[:16])
 	r.mu.Lock()
+	if _, seen := r.distinct[k]; !seen && len(r.autoSamples) < r.maxSamples {
+		// fallback samples (the distinctness keys themselves) for monitors that never call Sample
+		if len(str) > 300 {
+			str = str[:300] + "…"
+		}
+		r.autoSamples = append(r.autoSamples, "case key: "+str)
+	}
 	r.distinct[k] = struct{}{}
 	r.mu.Unlock()
 }
@@ -271,9 +280,16 @@ func (r *Run) Violation(key string, witness any, format string, args ...any) {
 		wb, _ = json.Marshal(fmt.Sprintf("%+v", witness))
 	}
 	rf := ReplayFile{Property: r.Prop, Key: key, Tier: r.tier, Seed: r.seed, Detail: detail, Witness: wb}
-	dir := filepath.Join(Root(), "replays")
+	dir := os.Getenv("VERIF_REPLAYS") // scratch-tree runs keep their witnesses apart
+	if dir == "" {
+		dir = filepath.Join(Root(), "replays")
+	}
 	_ = os.MkdirAll(dir, 0o755)
-	path := filepath.Join(dir, fmt.Sprintf("%s-%s-s%d-%d.json", r.Prop, sanitize(key), r.seed, r.seenKeys[key]))
+	tag := ""
+	if r.replayIn != nil {
+		tag = "-replayed" // never overwrite the witness being replayed
+	}
+	path := filepath.Join(dir, fmt.Sprintf("%s-%s-s%d-%d%s.json", r.Prop, sanitize(key), r.seed, r.seenKeys[key], tag))
 	b, _ := json.MarshalIndent(rf, "", " ")
 	_ = os.WriteFile(path, b, 0o644)
 	r.violations = append(r.violations, violation{Key: key, Detail: detail, Replay: path, Known: known})
@@ -355,7 +371,10 @@ func (r *Run) Finish(minDistinct int) {
 		"samples":             r.samples,
 	}
 	if len(r.samples) == 0 {
-		cov["samples"] = []any{}
+		cov["samples"] = r.autoSamples
+		if len(r.autoSamples) == 0 {
+			cov["samples"] = []any{}
+		}
 	}
 	names := make([]string, 0, len(r.counters))
 	for k := range r.counters {
